@@ -88,4 +88,18 @@ theorem ok_no_nested_path (tags mutexTags : List Nat) (fs : List Fn) (hok : ok t
   rw [hbit] at this
   cases this
 
+/-- What `rootsAvoid` establishes: from a root, NO call path reaches a function that acquires a mutex with
+one of the tags. -/
+theorem rootsAvoid_sound (tags mutexTags : List Nat) (fs : List Fn) (roots : List Nat)
+    (hok : rootsAvoid tags mutexTags fs roots = true) {f h : Nat} (hf : f ∈ roots) (hr : Reach fs f h)
+    {fnh : Fn} (hh : fs[h]? = some fnh) {m : Nat} (hm : m ∈ fnh.acquires) (hlt : m < mutexTags.length) :
+    tags.contains (mutexTags.getD m 0) = false := by
+  unfold rootsAvoid at hok
+  simp only [Bool.and_eq_true, List.all_eq_true] at hok
+  obtain ⟨⟨hw, hc⟩, hroots⟩ := hok
+  have hbit := closed_sound fs (closure fs) hw hc hr fnh hh m hm
+  have := hroots f hf m (List.mem_range.mpr hlt)
+  simp only [hasBit, hbit, Bool.not_true, Bool.or_false, Bool.not_eq_true'] at this
+  exact this
+
 end FV.Locks
